@@ -175,17 +175,31 @@ def run_family(fam, tier, seed):
         hcmd = [HARNESS, fam['name']] + [str(a) for a in args] + ['--seed', str(seed)]
         if nsh > 1:
             hcmd += ['--shard', str(i), '--nshards', str(nsh)]
-        h = subprocess.Popen(hcmd, stdout=subprocess.PIPE, stderr=subprocess.PIPE, env=ENV)
-        d = subprocess.Popen([DRIVER] + fam.get('driver_args', []), stdin=h.stdout, stdout=subprocess.PIPE,
+        # outputs go to files: with pipes, a shard whose driver prints more than a pipe buffer would
+        # block until its turn to be read, serialising the shards
+        tmpd = os.path.join(ROOT, 'build', 'tmp')
+        os.makedirs(tmpd, exist_ok=True)
+        tag = f"{os.getpid()}-{fam['name']}-{i}"
+        herr = open(os.path.join(tmpd, f'h-{tag}.err'), 'w+')
+        dout = open(os.path.join(tmpd, f'd-{tag}.out'), 'w+')
+        h = subprocess.Popen(hcmd, stdout=subprocess.PIPE, stderr=herr, env=ENV)
+        d = subprocess.Popen([DRIVER] + fam.get('driver_args', []), stdin=h.stdout, stdout=dout,
                              stderr=subprocess.STDOUT, text=True)
         h.stdout.close()
+        h._errf, d._outf = herr, dout
         procs.append((h, d, hcmd))
     res = {'cases': 0, 'nontrivial': 0, 'mismatch': 0, 'oracle': 0, 'known': 0, 'fidelity': 0, 'skipped': 0, 'MISMATCH': [], 'ORACLE': [],
            'KNOWN': [], 'SAMPLE': [], 'errors': [], 'cmds': []}
     for h, d, hcmd in procs:
-        out, _ = d.communicate()
-        herr = h.stderr.read().decode(errors='replace')
+        d.wait()
         hrc = h.wait()
+        d._outf.seek(0); out = d._outf.read(); d._outf.close()
+        h._errf.seek(0); herr = h._errf.read(); h._errf.close()
+        for f in (d._outf.name, h._errf.name):
+            try:
+                os.remove(f)
+            except OSError:
+                pass
         res['cmds'].append(' '.join(hcmd))
         if hrc != 0:
             res['errors'].append(f'harness exit {hrc}: {herr[-500:]}')
@@ -328,10 +342,12 @@ def main():
 
     # a broken proof/correspondence with no failing input found so far: search deeper before giving up
     if broken and not violations and tier == 'quick' and ok and okd and P.get('search_on_break', True):
-        log('[search] proof or correspondence broken; running the thorough generators to look for a failing input')
-        for fam in P['families']:
+        log('[search] proof or correspondence broken; running the generators with other seeds to look for a failing input')
+        for fam, k in [(fam, k) for k in (1, 2, 3) for fam in P['families']]:
+            if violations:
+                break
             try:
-                res = run_family(fam, 'thorough', seed + 1)
+                res = run_family(fam, 'quick', seed + k)
             except Exception as e:  # noqa
                 continue
             for f in res['ORACLE'][:50]:
